@@ -64,4 +64,15 @@ CHECKS = {
         assumptions=["single-threaded use", "a map is never destroyed while iterators are open on it",
                      "a trie prefix iterator is held to its prefix only while nothing was inserted during the iteration"],
     ),
+    "C11": dict(
+        title="overwrite ring / blackbox keeps the newest records",
+        level="exploration",
+        design_ref="DESIGN.md section 4, C11",
+        technique="model-based property testing: generated write/read/snapshot sequences vs. the list of all writes with a retention bound",
+        level_text="seeded random sequences of writes (tiny to exactly S), destructive reads, peek+reclaim and non-destructive file snapshots on overwrite rings of all sizes; every chunk that "
+                   "comes out must be a written one, in order, gap-free up to the newest, and never fewer than the newest chunks that fit S",
+        level_note="trusted: the model (set of possible consumed boundaries, so byte-identical chunks cannot cause a wrong guess), ASan/UBSan",
+        stages=[rnd("ring", "c11", 250000, 5000000, essential=["wrapped_twice", "multi_reclaim", "snapshot_after_wrap", "semaphore", "near_capacity_chunk", "read_after_overwrite", "full_S_chunk", "peek"])],
+        assumptions=["single writer/reader thread", "snapshots need the private /dev/shm namespace (qb_rb_create_from_file uses a fixed name)"],
+    ),
 }
